@@ -68,6 +68,20 @@ void h_max_pool2d(void){
   ASSERT(out == m, "element == max over the window truncated at the input border");
   OBS(out); REACHED();
 }
+/* signed int8 data: the maximum of a window of negative values is negative */
+void h_max_pool2d_i8(void){
+  u64 e[4] = {N, C, pool_out(H, KH, SH, CEIL), pool_out(W, KW, SW, CEIL)}, idx[4], os[4] = {0}; u8 d[CELLS]; u32 out = 0;
+  draw(d, idx, e);
+  int r = k_max_pool2d_i8(sh, d, ks, st, CEIL, idx, os, &out);
+  ASSERT(r == 1, "ok");
+  for (int i = 0; i < 4; i++) ASSERT(os[i] == e[i], "shape == PyTorch output shape");
+  i32 m = 0; int any = 0;
+  for (u64 p = 0; p < KH; p++) for (u64 q = 0; q < KW; q++){ u64 y = idx[2]*SH + p, x = idx[3]*SW + q;
+    if (y < H && x < W){ i32 v = (i32)(i8)d[((idx[0]*C + idx[1])*H + y)*W + x]; if (!any || v > m) m = v; any = 1; } }
+  ASSERT(any, "window not empty");
+  ASSERT((i32)out == m, "element == max over the window truncated at the input border (signed data)");
+  OBS(out); REACHED();
+}
 void h_avg_pool2d(void){
   u64 e[4] = {N, C, pool_out(H, KH, SH, CEIL), pool_out(W, KW, SW, CEIL)}, idx[4], os[4] = {0}; u8 d[CELLS]; float out = 0;
   draw(d, idx, e);
